@@ -1197,6 +1197,26 @@ def fixed_corner_models() -> list[tuple[onnx.ModelProto, dict]]:
     sp = H.make_sparse_tensor(NH.from_array(np.array([3.0], np.float32), "s"), NH.from_array(np.array([1], np.int64), ""), [2])
     out.append((mk([H.make_node("Add", ["x", "s"], ["y"])], [f2("x")], [f2("y")], opset=14, sparse_initializer=[sp]),
                 ["sparse-initializer", "opset-14"]))
+    # --- initializers OWNED BY BODIES of m (If branches, Loop body, Scan body, depth 2): renamed with the body's names
+    ib_t = H.make_graph([H.make_node("Add", ["x", "B"], ["t"])], "then_g", [], [f2("t")], initializer=[NH.from_array(np.array([1, 2], np.float32), "B")])
+    ib_e = H.make_graph([H.make_node("Mul", ["x", "S"], ["t"])], "else_g", [], [f2("t")], initializer=[NH.from_array(np.array([3, 4], np.float32), "S")])
+    out.append((mk([H.make_node("If", ["c"], ["y"], then_branch=ib_t, else_branch=ib_e)], [f2("x"), bvi("c", TP.BOOL, [])], [f2("y")]),
+                ["body-initializer", "subgraph-captures-outer"]))
+    ib_in = H.make_graph([H.make_node("Sub", ["xi", "D"], ["t"])], "then_g", [], [f2("t")], initializer=[NH.from_array(np.array([0.5, 0.25], np.float32), "D")])
+    ib_in2 = H.make_graph([H.make_node("Add", ["xi", "B"], ["t"])], "else_g", [], [f2("t")])
+    ib_lb = H.make_graph([H.make_node("Identity", ["ci"], ["co"]), H.make_node("If", ["c"], ["u"], then_branch=ib_in, else_branch=ib_in2),
+                          H.make_node("Mul", ["u", "B"], ["xo"])], "loop_body",
+                         [bvi("it", TP.INT64, []), bvi("ci", TP.BOOL, []), f2("xi")], [bvi("co", TP.BOOL, []), f2("xo")],
+                         initializer=[NH.from_array(np.array([2, -1], np.float32), "B")])
+    out.append((mk([H.make_node("Constant", [], ["M"], value=NH.from_array(np.array(2, np.int64), "M")),
+                    H.make_node("Loop", ["M", "", "x"], ["y"], body=ib_lb)], [f2("x"), bvi("c", TP.BOOL, [])], [f2("y")],
+                   initializer=[NH.from_array(np.array([7, 7], np.float32), "W")]),
+                ["body-initializer", "if-inside-loop", "loop-body-captures-outer", "initializer"]))
+    ib_sc = H.make_graph([H.make_node("Add", ["si", "K"], ["s1"]), H.make_node("Mul", ["s1", "xi"], ["so"]), H.make_node("Identity", ["so"], ["sc"])], "scan_body",
+                         [f2("si"), f2("xi")], [f2("so"), f2("sc")], initializer=[NH.from_array(np.array([0.5, 1.5], np.float32), "K")])
+    out.append((mk([H.make_node("Constant", [], ["sh"], value=NH.from_array(np.array([1, 2], np.int64), "sh")), H.make_node("Reshape", ["x", "sh"], ["seq"]),
+                    H.make_node("Scan", ["x", "seq"], ["y", "st"], body=ib_sc, num_scan_inputs=1)], [f2("x")], [f2("y")]),
+                ["body-initializer", "scan-body"]))
     # --- the version family: changed operators ONLY inside bodies, second domains, known converter defect
     f3 = lambda n: H.make_tensor_value_info(n, TP.FLOAT, [2, 3, 4])  # noqa: E731
     cb = bvi("c", TP.BOOL, [])
